@@ -367,3 +367,12 @@ mod removable_list_tests {
         assert_eq!(l.negations, vec!["c".to_string()]);
     }
 }
+
+#[cfg(reclass_rs_verif)]
+impl RemovableList {
+    /// Verification hook: items and pending negations.
+    #[must_use]
+    pub fn verif_parts(&self) -> (Vec<String>, Vec<String>) {
+        (self.items.clone(), self.negations.clone())
+    }
+}
